@@ -21,7 +21,7 @@ async function main () {
     }
     return k.checkMain(e, tier, seed, workers, runs)
   } else if (cmd === 'worker') {
-    k.workerMain(engines[a[1]], parseInt(a[2], 10), parseInt(a[3], 10), parseInt(a[4], 10), a[5])
+    await k.workerMain(engines[a[1]], parseInt(a[2], 10), parseInt(a[3], 10), parseInt(a[4], 10), a[5])
     return 0
   } else if (cmd === 'exec') {
     return k.execMain(engines, a[1])
